@@ -493,6 +493,7 @@ def preprocess_tree_sequences(
             result_sequence.append((result_matrix, label_sequence))
     else:
         result_sequence = []
+        token_dictionary = dict(token_dictionary)
         if masking in token_dictionary:
             del token_dictionary[masking]
 
@@ -667,6 +668,7 @@ def preprocess_token_sequences(
             )
     else:
         result_sequences = List()
+        token_dictionary = dict(token_dictionary)
         if masking in token_dictionary:
             del token_dictionary[masking]
 
@@ -847,6 +849,7 @@ def preprocess_timed_token_sequences(
             )
     else:
         result_sequences = List()
+        token_dictionary = dict(token_dictionary)
         if masking in token_dictionary:
             del token_dictionary[masking]
 
@@ -1033,6 +1036,7 @@ def preprocess_multi_token_sequences(
                 )
             full_sequence.append(result_sequences)
     else:
+        token_dictionary = dict(token_dictionary)
         if masking in token_dictionary:
             del token_dictionary[masking]
 
